@@ -252,7 +252,7 @@ struct Explorer
             snprintf(b, sizeof b, "%s%016llx", SYS::name(), (unsigned long long)after);
             c.state(b);
          }
-         if(c.wantSample() && n >= 3 && (after % 9973) == 1)
+         if(c.wantSample() && n >= 3 && (fnv_str(cs) % 20011) == 5)
             c.sample("{\"sequence\":" + jstr(pretty(init, seq)) + ",\"case\":" + jstr(cs) + "}");
       }
       h = h * 31 + after;
@@ -1939,6 +1939,7 @@ struct ArrSys
    static bool gate_rare(int g) { return g == 3; }     // gates whose trigger is rare are run (isolated) at every depth
    static std::vector<ProbeSeq> probes()
    {
+      if(KIND == 0) return {{1, 1, {Op(12, 0)}}};
       if(KIND == 1) return {{1, 1, {Op(4, 0)}}, {1, 1, {Op(5, 0)}}, {1, 1, {Op(6, 0)}}, {1, 0, {Op(0), Op(6, 0)}}};
       return {};
    }
@@ -2664,6 +2665,27 @@ struct Alg
             ok = dSSV(x, g, wy, true) && x.isSetup(); expV(c, "SSV.assign2productAndSetup(A,x):x", tg, cs, ok, wy, g, xv);
          }
       });
+      // ---------------- conversions from the double classes (as used when the rational LP is synchronised from the real one) ----------------
+      if(!std::is_same<R, double>::value)
+      {
+         typedef Alg<double> AD;
+         add("V<R>=V<double>", NV, NV, 1, [](Ctx & c, const std::string & cs, int i, int j, int) { V v = mkV(i); VectorBase<double> w = AD::mkV(j); v = w; D3 g; std::string y; bool ok = dV(v, g, y); expV(c, "V<R>=V<double>", "", cs, ok, y, g, AD::dense(j)); });
+         add("V<R>(V<double>)", NV, 1, 1, [](Ctx & c, const std::string & cs, int i, int, int) { VectorBase<double> w = AD::mkV(i); V v(w); D3 g; std::string y; bool ok = dV(v, g, y); expV(c, "V<R>(V<double>)", "", cs, ok, y, g, AD::dense(i)); });
+         add("SV<R>=SV<double>", NS, NS, 1, [](Ctx & c, const std::string & cs, int i, int j, int) { DSV s = mkSV(g_srep[i]); DSVectorBase<double> t = AD::mkSV(g_srep[j]); static_cast<SV&>(s) = static_cast<const SVectorBase<double>&>(t); D3 g; std::string y; bool ok = dSV(s, g, y); expV(c, "SV<R>=SV<double>", T2(0, stag(g_srep[j])), cs, ok, y, g, AD::dense(g_srep[j].p)); });
+         add("DSV<R>(SV<double>)", NS, 1, 1, [](Ctx & c, const std::string & cs, int i, int, int) { DSVectorBase<double> t = AD::mkSV(g_srep[i]); DSV s(static_cast<const SVectorBase<double>&>(t)); D3 g; std::string y; bool ok = dSV(s, g, y); expV(c, "DSV<R>(SV<double>)", T2(0, stag(g_srep[i])), cs, ok, y, g, AD::dense(g_srep[i].p)); });
+         add("SVSet<R>=SVSet<double>", NA * NA * NA, 1, 1, [this, NA](Ctx & c, const std::string & cs, int i, int, int)
+         {
+            int cp[3] = {Apat[i % NA], Apat[(i / NA) % NA], Apat[i / NA / NA]};
+            SVSetBase<double> A(3, 9);
+            for(int t = 0; t < 3; ++t) { DSVectorBase<double> col(4); for(int r = 0; r < 3; ++r) if(digit(cp[t], r) != 1) col.add(r, Num<double>::letter(digit(cp[t], r))); A.add(col); }
+            SVSetBase<R> B;
+            { DSV junk(2); junk.add(1, N::letter(2)); B.add(junk); }
+            B = A;
+            c.count(std::string(N::tag()) + ".evaluations");
+            if(B.num() != 3) { bad(c, "SVSet<R>=SVSet<double>", "wrong-value", "", cs, "num()=" + std::to_string(B.num())); return; }
+            for(int t = 0; t < 3; ++t) { D3 g; std::string y; bool ok = dSV(B[t], g, y); expV(c, "SVSet<R>=SVSet<double>", "", cs, ok, y, g, AD::dense(cp[t])); }
+         });
+      }
       start.clear();
       total = 0;
       for(auto& d : defs) { start.push_back(total); total += (uint64_t)d.ni * d.nj * d.nk; }
@@ -2856,6 +2878,7 @@ int main(int argc, char** argv)
       });
    }
    Report rep(args, "model_checking", thorough ? 2400 : 300);
+   rep.all.maxSamples = 200;      // thinned to one sample per phase before the evidence is written
    RunOpts o = rep.opts();
    o.perturb = {85};
    o.watchdog_s = 180;
@@ -2925,6 +2948,23 @@ int main(int argc, char** argv)
          return 1;
       },
       [&](uint64_t idx, uint64_t) { return "ph=stablesum;idx=" + std::to_string(idx); }, o, [&](uint64_t, uint64_t) { return std::string("@stablesum"); });
+   }
+   {
+      std::vector<std::string> keep;
+      std::set<std::string> phs;
+      for(auto& smp : rep.all.samples)
+      {
+         size_t a = smp.find("ph="), b = smp.find(';', a == std::string::npos ? 0 : a);
+         std::string ph = (a == std::string::npos || b == std::string::npos) ? smp : smp.substr(a, b - a);
+         if(phs.insert(ph).second) keep.push_back(smp);
+      }
+      if(keep.size() > 6)
+      {
+         std::vector<std::string> k2;
+         for(size_t i = 0; i < 6; ++i) k2.push_back(keep[i * keep.size() / 6]);
+         keep.swap(k2);
+      }
+      rep.all.samples.swap(keep);
    }
    auto& C = rep.all.counters;
    rep.evaluations = C["sequences"] + C["vecD.evaluations"] + C["vecQ.evaluations"] + C["sorter.evaluations"] + C["stablesum.evaluations"];
